@@ -36,6 +36,7 @@ type PoolCase struct {
 	PingPong   int    `json:"ping_pong,omitempty"`  // > 0: this many tiny tasks, each submitted the moment the previous one signals its completion (the submitter meets a worker that is just going idle), with a swept delay of a few spin steps
 	OpenPools  int    `json:"open_pools,omitempty"` // this many other 16-worker pools are created, used once and kept open while the case runs
 	PreTasks   int `json:"pre_tasks,omitempty"` // this many trivial tasks are submitted and waited for before every round (shifts whatever per-submit bookkeeping the pool keeps)
+	PingWait bool `json:"ping_wait,omitempty"` // with PingPong: submit, submit (racing the first task's completion), Wait — every round
 	EarlyWait int `json:"early_wait,omitempty"` // 1: Wait is called on the pool right after NewWorkerPool (nothing submitted); 2: one trivial task, then Wait — before anything else happens
 	NestedKids int `json:"nested_kids,omitempty"` // follow-up tasks per task (default 1); Tasks*NestedKids <= 2*workers: they fit the queue exactly
 	NestedSubmit bool `json:"nested_submit,omitempty"` // gated, Tasks <= workers: every task submits one follow-up task to its own pool (while the waiter is inside Wait) before it finishes
@@ -493,10 +494,47 @@ func runPoolCase(cs *PoolCase) *PoolObs {
 // runPingPong: tiny tasks submitted one at a time, each the moment the previous one has signalled its completion —
 // the submitter keeps meeting a worker that is just about to go idle. Every task must run; the hand-over may not
 // depend on which side gets there first.
+var spinSink atomic.Int64
+
 func runPingPong(cs *PoolCase, pool *flyt.WorkerPool, o *PoolObs, self int, st *quiesce.Stats) {
 	var flag atomic.Int64
 	var ran atomic.Int64
 	sink := 0
+	if cs.PingWait {
+		// the LAST Submit before a Wait meets a pool that is just going idle (the task before it is finishing at that
+		// very moment, with a swept skew): Wait still covers it
+		for it := 1; it <= cs.PingPong; it++ {
+			var aStarted atomic.Bool
+			pool.Submit(func() {
+				aStarted.Store(true)
+				ran.Add(1)
+				for d := it % 32; d > 0; d-- { // its last statements: the skew between its return and the next Submit is swept
+					spinSink.Add(1)
+				}
+			})
+			for spins := 0; !aStarted.Load(); spins++ {
+				if spins > 2000 {
+					runtime.Gosched()
+				}
+			}
+			pool.Submit(func() {
+				for t0 := time.Now(); time.Since(t0) < 20*time.Microsecond; { // (long enough for a Wait that does not wait to be seen)
+				}
+				ran.Add(1)
+			})
+			pool.Wait()
+			if got := ran.Load(); got != int64(2*it) {
+				o.WaitEarly = append(o.WaitEarly, fmt.Sprintf("round %d of a submit/submit/Wait loop: Wait returned with %d of the %d tasks submitted so far executed (the task submitted last met a pool that was just going idle)", it, got, 2*it))
+				for spins := 0; ran.Load() != int64(2*it) && spins < 50000000; spins++ {
+					runtime.Gosched()
+				}
+				break
+			}
+		}
+		o.TasksRun += int(ran.Load())
+		_ = sink
+		return
+	}
 	for it := 1; it <= cs.PingPong; it++ {
 		want := int64(it)
 		for d := (it * 7) % 48; d > 0; d-- { // swept delay, a few spin steps
@@ -1155,6 +1193,9 @@ func runC12(c *Cfg) {
 	// submit-on-completion chains (the submitter meets a worker that is just going idle)
 	for _, w := range []int{1, 1, 2, 3} {
 		pcs = append(pcs, &PoolCase{Family: "ping-pong", Workers: w, Tasks: 2 * w, Submitters: 1, Rounds: 1, Gated: true, Policy: "first", PingPong: c.Pick(12000, 400000)})
+	}
+	for _, w := range []int{1, 2, 3} {
+		pcs = append(pcs, &PoolCase{Family: "last-submit-meets-a-pool-going-idle", Workers: w, Tasks: w, Submitters: 1, Rounds: 1, Gated: true, Policy: "first", PingPong: c.Pick(40000, 600000), PingWait: true})
 	}
 	// tasks that submit a follow-up task to their own pool while another goroutine is inside Wait
 	for _, w := range []int{1, 2, 3, 8} {
